@@ -68,6 +68,16 @@ func Drive[C any](t *testing.T, rec *evid.Recorder, journal bool,
 			rec.Sample(c)
 		}
 		rec.MaybeFlush()
+		if strings.HasPrefix(out.Sig, "client-spin") || strings.HasPrefix(out.Sig, "bubble-frozen") {
+			// the stuck goroutines of that bubble are still around (and possibly burning a
+			// core): record and leave the process; no shrinking
+			if strings.HasPrefix(out.Sig, "client-spin") {
+				rec.Fail(out.Sig, out.Msg, c)
+			}
+			rec.Flush()
+			fmt.Fprintf(os.Stderr, "%s: %s\n", out.Sig, out.Msg)
+			os.Exit(3)
+		}
 		if out.Sig != "" {
 			if rec.Known(out.Sig) {
 				rec.Exclude(out.Sig)
